@@ -1,32 +1,33 @@
 (* C38 -- SmallVector behaves like std::vector with aligned storage.
    Statements only; every proof is `exact` of a lemma from Proofs/C38Proofs.v.
-   Model: Model/SmallVecModel.v (every public operation of dispenso/small_vector.h, statement by statement, on
-   block-structured memory with a lifetime ledger: Model/SmallVecLife.v).  Quantified over: the allocator oracle
-   [alloc] (= ::operator new, only assumed to return 16-aligned addresses), the inline capacity N >= 1, sizeof/alignof(T),
-   the number K of vector objects and the operation history [ops].
+   Model: Model/SmallVecModel.v (every public operation of dispenso/small_vector.h -- as repaired by the two `fix:`
+   commits found through this check -- statement by statement, on block-structured memory with a lifetime ledger:
+   Model/SmallVecLife.v).  Quantified over: the allocation functions ([onew] = ::operator new, only assumed to return
+   16-aligned addresses; [amalloc] = detail::alignedMalloc, only assumed to return a-aligned addresses for a power of two a;
+   [allocate_oracle] selects as the code does: alignedMalloc iff alignof(T) > 16), the inline capacity N >= 1,
+   sizeof/alignof(T), the number K of vector objects and the operation history [ops] (including push_back(v[i]) and
+   resize(n, v[i]) whose argument aliases an element).
    - [spec_run ops] = the same history on std::vector (lists); [None] = the history violates a std::vector precondition.
    - [run ... = Ok _] = the model committed none of the lifetime errors of [err] (double construction, destructor / read
-     of a dead object, double delete, storage released with a live object, out-of-bounds access).
-   - [selfref_growth] = the history contains push_back(v[i]) at size() == capacity()   (finding domain 2)
-   - [overaligned al] = 16 <? al                                                          (finding domain 1) *)
+     of a dead object, double delete, storage released with a live object, out-of-bounds access). *)
 From Coq Require Import ZArith List Bool Lia.
-From DV Require Import Model.SmallVecLife Model.SmallVecModel Model.C38Check Proofs.C38Proofs.
+From DV Require Import Model.SmallVecLife Model.SmallVecModel Proofs.C38Proofs.
 Import ListNotations.
 Local Open Scope Z_scope.
 
-(* contents and size equal std::vector's, for all operation sequences and all inline capacities *)
+(* contents and size equal std::vector's, for all operation sequences, all inline capacities, any allocator *)
 Theorem C38_smallvec_refines_vector : forall alloc N szT K ops sp', (1 <= N)%nat ->
-  spec_run ops (spec_init K) = Some sp' -> selfref_growth alloc N szT ops (init_slots K) led0 = false ->
+  spec_run ops (spec_init K) = Some sp' ->
   exists s g, run alloc N szT ops (init_slots K) led0 = Ok (s, g) /\ Forall2 slot_matches s sp'.
 Proof. exact C38_refines_proof. Qed.
 Print Assumptions C38_smallvec_refines_vector.
 
 (* each element is constructed and destroyed exactly once (also across inline -> heap and heap -> heap moves):
    the run commits no lifetime error, constructions - destructions = number of elements at every point, and once
-   every vector is destroyed nothing is alive and every block ::operator new returned was deleted (exactly once:
-   a second delete is an error of the run) *)
+   every vector is destroyed nothing is alive and every block that was allocated was released (exactly once:
+   a second release is an error of the run) *)
 Theorem C38_smallvec_lifetimes : forall alloc N szT K ops sp', (1 <= N)%nat ->
-  spec_run ops (spec_init K) = Some sp' -> selfref_growth alloc N szT ops (init_slots K) led0 = false ->
+  spec_run ops (spec_init K) = Some sp' ->
   exists s g, run alloc N szT ops (init_slots K) led0 = Ok (s, g) /\
     nctor g - ndtor g = total sp' /\
     (Forall (eq None) sp' ->
@@ -40,67 +41,61 @@ Theorem C38_inline_aligned : forall al szT obj g v i, is_pow2 al -> (al | szT) -
 Proof. exact inline_aligned_proof. Qed.
 Print Assumptions C38_inline_aligned.
 
-(* heap storage: aligned when alignof(T) divides what ::operator new guarantees *)
-Theorem C38_heap_aligned : forall alloc al N szT K ops sp', (1 <= N)%nat ->
-  (forall c n, (16 | alloc c n)) -> (al | 16) -> (al | szT) ->
-  spec_run ops (spec_init K) = Some sp' -> selfref_growth alloc N szT ops (init_slots K) led0 = false ->
-  exists s g, run alloc N szT ops (init_slots K) led0 = Ok (s, g) /\
+(* heap storage: aligned for every element type, over-aligned ones included *)
+Theorem C38_heap_aligned : forall onew amalloc al N szT K ops sp', (1 <= N)%nat ->
+  (forall c n, (16 | onew c n)) -> (forall c n a, is_pow2 a -> (a | amalloc c n a)) -> is_pow2 al -> (al | szT) ->
+  spec_run ops (spec_init K) = Some sp' ->
+  exists s g, run (allocate_oracle onew amalloc al) N szT ops (init_slots K) led0 = Ok (s, g) /\
     forall k v i, nth_error s k = Some (Some v) -> heapb v = true -> (al | elem_addr szT (data_addr al 0 g v) i).
 Proof. exact C38_heap_aligned_proof. Qed.
 Print Assumptions C38_heap_aligned.
 
-(* the property at full strength: every valid history, every element type *)
+(* the property at full strength: every valid history, every element type, no excluded domain *)
 Definition C38_full_statement : Prop :=
-  forall alloc al szT N K ops,
-    (forall c n, (16 | alloc c n)) -> is_pow2 al -> (al | szT) -> (1 <= N)%nat -> C38_property alloc al szT N K ops.
+  forall onew amalloc al szT N K ops,
+    (forall c n, (16 | onew c n)) -> (forall c n a, is_pow2 a -> (a | amalloc c n a)) ->
+    is_pow2 al -> (al | szT) -> (1 <= N)%nat ->
+    C38_property (allocate_oracle onew amalloc al) al szT N K ops.
 
-(* REFUTED (1): alignof(T) = sizeof(T) = 32, N = 1, ::operator new returns 16 (mod 32): after two push_backs the
-   first heap element sits at an address that is not a multiple of 32 *)
-Theorem C38_refuted :
-  exists alloc al szT N ops s g v,
-    (forall c n, (16 | alloc c n)) /\ is_pow2 al /\ (al | szT) /\ (1 <= N)%nat /\
-    spec_run ops (spec_init 1) <> None /\ selfref_growth alloc N szT ops (init_slots 1) led0 = false /\
-    run alloc N szT ops (init_slots 1) led0 = Ok (s, g) /\
-    nth_error s 0 = Some (Some v) /\ heapb v = true /\ (0 < vsize v)%nat /\
-    ~ (al | elem_addr szT (data_addr al 0 g v) 0).
-Proof. exact C38_refuted_proof. Qed.
-Print Assumptions C38_refuted.
+Theorem C38_holds : C38_full_statement.
+Proof. exact C38_holds_proof. Qed.
+Print Assumptions C38_holds.
 
-(* REFUTED (2): N = 2, push_back(11); push_back(22); push_back(v[0]) -- a valid std::vector history whose argument is
-   read after growToHeap destroyed the element it refers to *)
-Theorem C38_refuted_selfref :
-  exists alloc N szT ops sp',
-    (forall c n, (16 | alloc c n)) /\ (1 <= N)%nat /\ spec_run ops (spec_init 1) = Some sp' /\
-    selfref_growth alloc N szT ops (init_slots 1) led0 = true /\
-    run alloc N szT ops (init_slots 1) led0 = Err EReadDead.
-Proof. exact C38_refuted_selfref_proof. Qed.
-Print Assumptions C38_refuted_selfref.
+(* REGRESSION (former C38_refuted, repaired by the alignment fix): alignof(T) = sizeof(T) = 32, N = 1, ::operator new
+   returns 16 (mod 32).  With allocate() as repaired the heap elements are aligned; the second conjunct shows what the
+   model gives when the heap storage of the same type comes from ::operator new, as it did before the fix *)
+Example C38_regression_overaligned_heap :
+  heap_aligned_after 32 32 (run (allocate_oracle wit_alloc wit_amalloc 32) 1 32 wit_ops (init_slots 1) led0) = true /\
+  heap_aligned_after 32 32 (run wit_alloc 1 32 wit_ops (init_slots 1) led0) = false /\
+  contents_after (run (allocate_oracle wit_alloc wit_amalloc 32) 1 32 wit_ops (init_slots 1) led0) 0 = [1; 2].
+Proof. vm_compute. repeat split; reflexivity. Qed.
 
-Theorem C38_full_statement_refuted : ~ C38_full_statement.
-Proof. exact C38_full_refuted_proof. Qed.
-Print Assumptions C38_full_statement_refuted.
-
-(* the full property on the complement of the two finding domains *)
-Theorem C38_holds_except : forall alloc al szT N K ops,
-  (forall c n, (16 | alloc c n)) -> is_pow2 al -> (al | szT) -> (1 <= N)%nat ->
-  overaligned al = false -> selfref_growth alloc N szT ops (init_slots K) led0 = false ->
-  C38_property alloc al szT N K ops.
-Proof. exact C38_holds_except_proof. Qed.
-Print Assumptions C38_holds_except.
+(* REGRESSION (former C38_refuted_selfref, repaired by the aliasing fix): N = 2, push_back(11); push_back(22);
+   push_back(v[0]) at size == capacity, and resize(5, v[0]) at size == capacity *)
+Example C38_regression_selfref :
+  contents_after (run wit_alloc 2 8 wit_self_ops (init_slots 1) led0) 0 = [11; 22; 11] /\
+  spec_run wit_self_ops (spec_init 1) = Some [Some [11; 22; 11]] /\
+  contents_after (run wit_alloc 2 8 wit_self_resize_ops (init_slots 1) led0) 0 = [5; 6; 5; 5; 5] /\
+  spec_run wit_self_resize_ops (spec_init 1) = Some [Some [5; 6; 5; 5; 5]].
+Proof. vm_compute. repeat split; reflexivity. Qed.
 
 (* a concrete non-trivial history satisfying the hypotheses: three vectors, inline -> heap growth, reallocation,
-   copy, move, erase, self-referencing push below capacity, everything destroyed at the end *)
+   copy, move, erase, self-referencing push and resize while growing, everything destroyed at the end *)
 Example C38_nonvacuous :
-  let ops := [OCtor 0; OPush 0 0 1; OPush 1 0 2; OPush 2 0 3; OPush 0 0 4; OPush 0 0 5; OPushSelf 0 1;
-              OCtorCopy 1 0; OErase 1 2; OCtorMove 2 1; OResize 2 9; OAssignMove 0 2; OPop 0; OReserve 1 7;
+  let ops := [OCtor 0; OPush 0 0 1; OPush 1 0 2; OPushSelf 0 0; OPush 2 0 3; OPush 0 0 4; OPush 0 0 5; OPushSelf 0 1;
+              OCtorCopy 1 0; OErase 1 2; OCtorMove 2 1; OResizeSelf 2 9 0; OAssignMove 0 2; OPop 0; OReserve 1 7;
               OAssignCopy 2 0; OClear 0; ODtor 0; ODtor 1; ODtor 2] in
   spec_run ops (spec_init 3) = Some [None; None; None] /\
-  selfref_growth wit_alloc 2 16 ops (init_slots 3) led0 = false /\
-  overaligned 16 = false /\
-  (match run wit_alloc 2 16 ops (init_slots 3) led0 with
+  (forall c n, (16 | wit_alloc c n)) /\ (forall c n a, is_pow2 a -> (a | wit_amalloc c n a)) /\ is_pow2 64 /\
+  (match run (allocate_oracle wit_alloc wit_amalloc 64) 2 64 ops (init_slots 3) led0 with
    | Ok (s, g) => (nctor g =? ndtor g) && (0 <? nctor g) && (3 <=? Z.of_nat (length (blocks g))) &&
                   forallb (fun b => negb (b_live b)) (blocks g)
    | Err _ => false
    end = true) /\
-  spec_run (firstn 11 ops) (spec_init 3) = Some [Some [1; 2; 3; 4; 5; 2]; Some []; Some [1; 2; 4; 5; 2; 0; 0; 0; 0]].
-Proof. vm_compute. repeat split; reflexivity. Qed.
+  heap_aligned_after 64 64 (run (allocate_oracle wit_alloc wit_amalloc 64) 2 64 (firstn 12 ops) (init_slots 3) led0) = true /\
+  spec_run (firstn 12 ops) (spec_init 3) =
+    Some [Some [1; 2; 1; 3; 4; 5; 2]; Some []; Some [1; 2; 3; 4; 5; 2; 1; 1; 1]].
+Proof.
+  split; [vm_compute; reflexivity|]. split; [exact wit_alloc_16|]. split; [exact wit_amalloc_aligned|].
+  split; [exists 6; split; [lia|reflexivity]|]. vm_compute. repeat split; reflexivity.
+Qed.
